@@ -56,13 +56,26 @@ def blocks(tier):
             for dt in ("uint8", "uint16"):
                 for lo, hi in sc.ranges(n, 8):
                     B.append(("ct", "factored", P, R, c, dt, lo, hi))
+    # 2-D pairs given to the matchers in every memory layout (Fortran order, negative / non-unit strides, mixed)
+    n2 = sc.grid_count((2, 2), 2)
+    for lo, hi in sc.ranges(n2, 3):
+        B.append(("lay", lo, hi))
     for nref in (253, 254, 255, 65534, 65535):
         for mode in ("instance", "semantic"):
             B.append(("bnd", nref, mode))
     return B
 
 
+LAYOUT_PAIRS = (("F", "F"), ("F", "C"), ("C", "F"), ("rev", "strided"), ("strided", "rev"))
+
+
 def run_block(block, acc):
+    if block[0] == "lay":
+        n2 = sc.grid_count((2, 2), 2)
+        for i in range(block[1], block[2]):
+            for j in range(n2):
+                run_case({"kind": "lay", "pi": i, "ri": j}, acc)
+        return
     if block[0] == "ct":
         _, tier, P, R, c, dt, lo, hi = block
         for i in range(lo, hi):
@@ -123,6 +136,17 @@ def _matcher_cfg(m, rp):
 def run_case(case, acc):
     if case["kind"] == "bnd":
         return _bnd_case(case, acc)
+    if case["kind"] == "lay":
+        bp, br = sc.grid(case["pi"], (2, 2), 2), sc.grid(case["ri"], (2, 2), 2)
+        acc.case("lay", case["pi"], case["ri"])
+        if not np.any(bp) or not np.any(br):
+            return
+        for lp, lr in ([tuple(case["layout"])] if "layout" in case else LAYOUT_PAIRS):
+            for dt in ("uint8", "uint16"):
+                P, R = sc.apply_layout(bp.astype(dt), lp), sc.apply_layout(br.astype(dt), lr)
+                for m in [case["matcher"]] if "matcher" in case else MATCHERS:
+                    _one(acc, {**case, "layout": [lp, lr], "dtype": dt, "matcher": m}, P, R, m)
+        return
     if case["kind"] == "arr":
         pred, ref = sc.arr_from_case(case["pred"]), sc.arr_from_case(case["ref"])
         return _one(acc, case, pred, ref, case["matcher"])
@@ -161,7 +185,8 @@ def _one(acc, case, pred, ref, m):
     tag = f"{cfg} dtype={pred.dtype} pred labels {plabs} ref labels {rlabs}"
     acc.step()
     try:
-        out = make_matcher(cfg).match_instances(UnmatchedInstancePair(pred.copy(), ref.copy()))
+        # (numpy's .copy() would normalise the layout to C order: pass same-content arrays of the given layout)
+        out = make_matcher(cfg).match_instances(UnmatchedInstancePair(pred if case.get("kind") == "lay" else pred.copy(), ref if case.get("kind") == "lay" else ref.copy()))
     except Exception as e:
         acc.violation(f"C04:raised:{type(e).__name__}", case, f"{tag}: match_instances raised {e!r}")
         return
